@@ -196,6 +196,7 @@ def generate(run_seed: int, tier: str = 'quick', stream: str = 'seq') -> dict:
         return op
 
     saves = 0
+    last_save = {'slot': 0, 'src': 0}
     while len(ops) < n_ops:
         kind = rng.weighted(weights)
         if kind == 'LOAD':
@@ -205,7 +206,7 @@ def generate(run_seed: int, tier: str = 'quick', stream: str = 'seq') -> dict:
             if f and f['kind'] == 'crash_write':
                 ops.append({'op': 'RESTART'})
         elif kind == 'DAMAGE':
-            tgt = gen_key() if (saves == 0 or rng.chance(0.8)) else {'save': rng.randrange(saves)}
+            tgt = gen_key() if (saves == 0 or rng.chance(0.8)) else {'save': rng.randrange(4)}
             ops.append(gen_damage(tgt))
         elif kind == 'DAMAGE_LOAD':
             # fault inside in-flight state: damage a cache, then load the same key with a write fault
@@ -218,16 +219,20 @@ def generate(run_seed: int, tier: str = 'quick', stream: str = 'seq') -> dict:
                 ops.append({'op': 'LOAD', **k, 'fault': None})
         elif kind == 'SAVE':
             f = gen_fault([x for x in wf])
+            # often the same slot (and the same source object) again: save, change in place, save again
+            slot = last_save['slot'] if (saves and rng.chance(0.5)) else rng.randrange(4)
+            src = last_save['src'] if (saves and rng.chance(0.4)) else rng.randrange(8)
+            last_save.update(slot=slot, src=src)
             ops.append({
-                'op': 'SAVE', 'src': rng.randrange(8), 'slot': saves % 4,
-                'derive': rng.pick([None, None, 'slice', 'filter', 'disp']), 'fault': f,
+                'op': 'SAVE', 'src': src, 'slot': slot,
+                'derive': rng.pick([None, None, 'slice', 'filter', 'disp', 'flip_inplace', 'extend_inplace', 'slice']), 'fault': f,
             })
             saves += 1
             if f and f['kind'] == 'crash_write':
                 ops.append({'op': 'RESTART'})
         elif kind == 'RELOAD':
             if saves:
-                ops.append({'op': 'RELOAD', 'slot': rng.randrange(min(saves, 4)), 'fault': gen_fault(rf)})
+                ops.append({'op': 'RELOAD', 'slot': last_save['slot'] if rng.chance(0.5) else rng.randrange(4), 'fault': gen_fault(rf)})
         elif kind == 'DELETE':
             ops.append({'op': 'DELETE', 'target': gen_key()})
     return {
@@ -642,6 +647,13 @@ class Run:
             elif dv == 'disp':
                 obj = copy.deepcopy(src)
                 obj.to_displacements()
+            elif dv == 'flip_inplace':  # the pooled object itself changes representation, then is saved (again)
+                if src.coords_are_displacement:
+                    src.to_positions()
+                else:
+                    src.to_displacements()
+            elif dv == 'extend_inplace' and len(src) > 2 and len(src) < 64 and src.site_properties is None:
+                src.extend(src[1:3])
         except Exception as e:  # noqa: BLE001  (not C16's business)
             self.trace.log(ev='SAVE', step=self.step, skipped=True, derive_exc=type(e).__name__)
             return
